@@ -218,6 +218,71 @@ def main():
     emit("def ellipsoidNames : List String := ellipsoidList.map (·.1)")
     emit("")
 
+    # polynomial coefficient tables (rational expressions p/q evaluated by the compiler in f64)
+    def ratio_list(text, where):
+        out = []
+        for item in split_top(text):
+            item = item.strip()
+            if not item:
+                continue
+            m = re.fullmatch(r"(-?\s*[0-9][0-9_]*\.?[0-9_]*(?:[eE][+-]?[0-9]+)?)(?:_f64)?\s*(?:/\s*(-?[0-9][0-9_]*\.?[0-9_]*(?:[eE][+-]?[0-9]+)?)(?:_f64)?)?", item)
+            if not m:
+                raise TranslateError(f"{where}: cannot read coefficient {item!r}")
+            num = lit_of_float(m.group(1).replace(" ", "").replace("_", ""))
+            den = lit_of_float(m.group(2).replace("_", "")) if m.group(2) else "(Lit.fin false 1 0)"
+            out.append(f"({num}, {den})")
+        return out
+
+    def split_top(text):
+        depth, cur, parts = 0, "", []
+        for ch in text:
+            if ch in "[(":
+                depth += 1
+            if ch in "])":
+                depth -= 1
+            if ch == "," and depth == 0:
+                parts.append(cur)
+                cur = ""
+            else:
+                cur += ch
+        parts.append(cur)
+        return parts
+
+    def matrix(text, where):
+        rows = re.findall(r"\[([^\[\]]*)\]", text)
+        if not rows:
+            raise TranslateError(f"{where}: no rows")
+        return [ratio_list(r, where) for r in rows]
+
+    def poly_const(src, cname, lname, where):
+        m = re.search(r"const\s+" + cname + r"\s*:\s*PolynomialCoefficients\s*=\s*PolynomialCoefficients\s*\{(.*?)\};", src, re.S)
+        if not m:
+            raise TranslateError(f"{where}: {cname} not found")
+        body = m.group(1)
+        mf = re.search(r"fwd\s*:\s*\[(.*?)\]\s*,\s*inv\s*:\s*\[(.*)\]", body, re.S)
+        if not mf:
+            raise TranslateError(f"{where}: {cname} fwd/inv not found")
+        for tag, txt in (("Fwd", mf.group(1)), ("Inv", mf.group(2))):
+            rows = matrix(txt, where)
+            if len(rows) != 6 or any(len(r) != 6 for r in rows):
+                raise TranslateError(f"{where}: {cname}.{tag} is not 6x6")
+            emit(f"def {lname}{tag} : List (List (Lit × Lit)) := [")
+            emit(",\n".join("  [" + ", ".join(r) + "]" for r in rows))
+            emit("]")
+        emit("")
+
+    s = src_of("src/ellipsoid/constants.rs")
+    emit("/-! polynomial coefficient tables: each coefficient as (numerator, denominator) literals -/")
+    for cname, lname in (("RECTIFYING", "polyRectifying"), ("CONFORMAL", "polyConformal"), ("AUTHALIC", "polyAuthalic")):
+        poly_const(s, cname, lname, "ellipsoid/constants.rs")
+    m = re.search(r"const\s+MERIDIAN_ARC_COEFFICIENTS\s*:\s*\[f64;\s*\d+\]\s*=\s*\[(.*?)\];", s, re.S)
+    if not m:
+        raise TranslateError("MERIDIAN_ARC_COEFFICIENTS not found")
+    emit("def meridianArcCoefficients : List (Lit × Lit) := [" + ", ".join(ratio_list(m.group(1), "MERIDIAN_ARC_COEFFICIENTS")) + "]")
+    emit("")
+    s = src_of("src/inner_op/tmerc.rs")
+    poly_const(s, "TRANSVERSE_MERCATOR", "polyTmerc", "inner_op/tmerc.rs")
+
     # units
     s = src_of("src/inner_op/units.rs")
     for table in ("LINEAR_UNITS", "ANGULAR_UNITS"):
